@@ -1,14 +1,14 @@
 (* Dispatch.v -- op table: the single entry point used by the extracted driver and by cases.v *)
 From Coq Require Import String.
 From Coq Require Import List NArith ZArith Bool.
-From MPS Require Import Model.Bytes Model.Sx Model.Framing Model.DispatchC19 Model.DispatchSession Model.DispatchHandler Model.DispatchPaillier Model.DispatchPoly.
+From MPS Require Import Model.Bytes Model.Sx Model.Framing Model.DispatchC19 Model.DispatchSession Model.DispatchHandler Model.DispatchPaillier Model.DispatchPoly Model.DispatchPool Model.DispatchOT.
 Import ListNotations.
 
 Definition op_table : list (bytes * (sx -> option sx)) :=
   [ (str "c19.write"%string, op_c19_write);
     (str "c19.commit_input"%string, op_c19_commit_input);
     (str "c19.valid"%string, op_c19_valid)
-  ] ++ session_ops ++ handler_ops ++ paillier_ops ++ poly_ops.
+  ] ++ session_ops ++ handler_ops ++ paillier_ops ++ poly_ops ++ pool_ops ++ ot_ops.
 
 Fixpoint lookup (name : bytes) (t : list (bytes * (sx -> option sx))) : option (sx -> option sx) :=
   match t with
@@ -16,7 +16,7 @@ Fixpoint lookup (name : bytes) (t : list (bytes * (sx -> option sx))) : option (
   | (n, f) :: t' => if bytes_eqb n name then Some f else lookup name t'
   end.
 
-Definition run (name : bytes) (arg : sx) : sx :=
+Definition mps_dispatch (name : bytes) (arg : sx) : sx :=
   match lookup name op_table with
   | None => sx_err 1
   | Some f => match f arg with Some r => r | None => sx_err 2 end
@@ -40,7 +40,7 @@ Fixpoint mismatches_from (i : nat) (cases : list (bytes * sx * sx)) : list nat :
   match cases with
   | [] => []
   | (op, arg, expect) :: rest =>
-      if sx_eqb (run op arg) expect then mismatches_from (S i) rest
+      if sx_eqb (mps_dispatch op arg) expect then mismatches_from (S i) rest
       else i :: mismatches_from (S i) rest
   end.
 Definition mismatches := mismatches_from 0.
